@@ -401,8 +401,8 @@ class BlobClient(ir.Client):
             rb = self._root_blob(e, b, d) if strip(e).get("k") in ("Ref", "Cast") else None
             if rb is not None and b.get(rb) in ("L", "U"):
                 b[rb] = "E"
-        rv = ir.eval_abs(e, env) if e is not None else None
-        if rv is None:
+        rv = ir.eval_abs(e, env) if e is not None else "void"
+        if rv == "void":
             rc = "void"
         elif rv is ir.TOP:
             rc = "unknown"
